@@ -132,10 +132,8 @@ def wfError : Json → Bool
   | .obj e => reqIs e t!"code" isInt && reqIs e t!"message" isStr && onlyKeys e [t!"code", t!"message", t!"data"]
   | _ => false
 
-def lowerAscii (k : Text) : Text := k.map (fun c => if 65 ≤ c ∧ c ≤ 90 then c + 32 else c)
-
 /-- the members of the request whose name is `name` up to ASCII case (what a lenient decoder may bind to it) -/
-def membersLoose (o : Obj) (name : Text) : Obj := o.filter (fun kv => lowerAscii kv.1 == name)
+def membersLoose (o : Obj) (name : Text) : Obj := o.filter (fun kv => toLower kv.1 == name)
 
 inductive IdDemand
   | exact (id : Json)
